@@ -14,6 +14,52 @@ import (
 	"github.com/robustirc/robustirc/internal/robust"
 )
 
+// caughtUp makes sure that the state machine of this node, which is the raft
+// leader, has applied everything that was in the log when the node became
+// leader in the current term (e.g. while a node that was just restarted is
+// still replaying its log). One barrier per term is enough: everything which is
+// appended afterwards passes through this node, see posting.
+func (api *HTTP) caughtUp() error {
+	term := api.raftNode.CurrentTerm()
+	api.postingMu.Lock()
+	defer api.postingMu.Unlock()
+	if api.caughtUpTerm == term && term != 0 {
+		return nil
+	}
+	if err := api.raftNode.Barrier(10 * time.Second).Error(); err != nil {
+		return err
+	}
+	api.caughtUpTerm = term
+	return nil
+}
+
+// setPosting records that the message with id clientMessageId of session is
+// on its way through raft. It returns false if that is the case already.
+func (api *HTTP) setPosting(session robust.Id, clientMessageId uint64) bool {
+	api.postingMu.Lock()
+	defer api.postingMu.Unlock()
+	if id, ok := api.posting[session]; ok && id == clientMessageId {
+		return false
+	}
+	api.posting[session] = clientMessageId
+	return true
+}
+
+func (api *HTTP) clearPosting(session robust.Id, clientMessageId uint64) {
+	api.postingMu.Lock()
+	defer api.postingMu.Unlock()
+	if api.posting[session] == clientMessageId {
+		delete(api.posting, session)
+	}
+}
+
+func (api *HTTP) isPosting(session robust.Id, clientMessageId uint64) bool {
+	api.postingMu.Lock()
+	defer api.postingMu.Unlock()
+	id, ok := api.posting[session]
+	return ok && id == clientMessageId
+}
+
 // handlePostMessage is called by the robustirc-bridge whenever a message should be
 // posted. The handler blocks until either the data was written or an error
 // occurred. If successful, it returns the unique id of the message.
@@ -47,6 +93,27 @@ func (api *HTTP) handlePostMessage(w http.ResponseWriter, r *http.Request, sessi
 		return
 	}
 
+	// The duplicate detection below compares with the state machine, which
+	// can lag behind the log: a message which is in the log already, but was
+	// not applied yet, must not be taken for a new one when the client
+	// repeats it.
+	if api.raftNode.State() == raft.Leader {
+		if err := api.caughtUp(); err != nil {
+			http.Error(w, fmt.Sprintf("Barrier(): %v", err), http.StatusInternalServerError)
+			return
+		}
+		// An earlier request with the same message may still be waiting for
+		// raft: wait for its outcome instead of appending the message again.
+		deadline := time.Now().Add(10 * time.Second)
+		for api.isPosting(session, req.ClientMessageId) {
+			if time.Now().After(deadline) {
+				http.Error(w, "an earlier request with this message is still in progress", http.StatusInternalServerError)
+				return
+			}
+			time.Sleep(1 * time.Millisecond)
+		}
+	}
+
 	// If we have already seen this message, we just reply with a canned response.
 	if api.ircServer().LastPostMessage(session) == req.ClientMessageId {
 		return
@@ -56,6 +123,13 @@ func (api *HTTP) handlePostMessage(w http.ResponseWriter, r *http.Request, sessi
 		api.maybeProxyToLeader(w, r, nopCloser{&body})
 		return
 	}
+
+	if !api.setPosting(session, req.ClientMessageId) {
+		// Lost a race against another request with the same message.
+		http.Error(w, "an earlier request with this message is still in progress", http.StatusInternalServerError)
+		return
+	}
+	defer api.clearPosting(session, req.ClientMessageId)
 
 	remoteAddr := r.RemoteAddr
 	if api.ircServer().TrustedBridge(r.Header.Get("X-Bridge-Auth")) != "" {
